@@ -1,29 +1,102 @@
 """per-property claims (source of MANIFEST.json; see tools_gen_manifest.py)"""
+
+TECH = ('static analysis: symbolic path tables of the anchored methods (ast, no execution) compared region by region '
+        'with reference tables written from the property, plus %s')
+NOTE = ('Decides the mechanism in the source, not runtime behaviour. Trusted: CPython semantics (generators, heapq, '
+        'list.sort stability, tuple comparison), %s. Dimensions of the predicate abstraction are treated as independent '
+        '(can only make more path pairs look feasible, i.e. is conservative). A structural change the canonicaliser does '
+        'not see through is reported as a difference from the reference table with file:line.')
+
+
+def c(text, ref, extra_tech, trusted):
+    return dict(text=text, ref='DESIGN.md section 5 ' + ref, technique=TECH % extra_tech, note=NOTE % trusted)
+
+
 CHECKS = {
- 'C19': dict(text='static', ref='DESIGN.md 5 C19', note='n', technique='static analysis'),
- 'C18': dict(text='static', ref='DESIGN.md 5 C18', note='n', technique='static analysis'),
- 'C17': dict(text='static', ref='DESIGN.md 5 C17', note='n', technique='static analysis'),
- 'C16': dict(text='static', ref='DESIGN.md 5 C16', note='n', technique='static analysis'),
- 'C15': dict(text='static', ref='DESIGN.md 5 C15', note='n', technique='static analysis'),
- 'C14': dict(text='static', ref='DESIGN.md 5 C14', note='n', technique='static analysis'),
- 'C13': dict(text='static', ref='DESIGN.md 5 C13', note='n', technique='static analysis'),
- 'C12': dict(text='static', ref='DESIGN.md 5 C12', note='n', technique='static analysis'),
- 'C11': dict(text='static', ref='DESIGN.md 5 C11', note='n', technique='static analysis'),
- 'C10': dict(text='static', ref='DESIGN.md 5 C10', note='n', technique='static analysis'),
- 'C08': dict(text='static', ref='DESIGN.md 5 C08', note='n', technique='static analysis'),
- 'C07': dict(text='static', ref='DESIGN.md 5 C07', note='n', technique='static analysis'),
- 'C06': dict(text='static', ref='DESIGN.md 5 C06', note='n', technique='static analysis'),
- 'C20': dict(text='static', ref='DESIGN.md 5 C20', note='n', technique='static analysis'),
- 'C05': dict(text='static', ref='DESIGN.md 5 C05', note='n', technique='static analysis'),
- 'C04': dict(text='static', ref='DESIGN.md 5 C04', note='n', technique='static analysis'),
- 'C03': dict(text='static', ref='DESIGN.md 5 C03', note='n', technique='static analysis'),
- 'C02': dict(text='static', ref='DESIGN.md 5 C02', note='n', technique='static analysis'),
- 'C01': dict(text='static', ref='DESIGN.md 5 C01', note='n', technique='static analysis'),
- 'C09': dict(
-   text='Static: Port.put / Port.run path tables are compared region by region with the reference tables written from the '
-        'property (accept/drop thresholds, byte accounting, hop stamp). Decides the mechanism, not departure instants.',
-   ref='DESIGN.md 5 C09', note='CPython semantics; kernel Store is FIFO (C07); float arithmetic ignored',
-   technique='static analysis: symbolic path tables + canonical terms compared with reference decision tables'),
+ 'C01': c('Every path of schedule/step/peek/Environment.__init__ and of the Timeout/Initialize/Interruption constructors is '
+          'shown equivalent to a reference table: agenda key (now+delay, priority, next id, event), clock written from the '
+          'popped key only, negative delay refused before scheduling. Whole-repo scans: writers of the clock, agenda and '
+          'insertion counter; priority class and constants at all 9+ schedule() sites. Time order / urgent-first / trigger '
+          'order follow from these by a short argument (DESIGN); universally quantified over programs because it is about '
+          'the code, not about sampled runs.',
+          'C01', 'who-may scans over the whole repository and constant resolution', 'IEEE addition monotone for non-negative delays'),
+ 'C02': c('Environment.step (callbacks swapped to None, each called once in list order, undefused failure re-raised as a '
+          'copy), Event.succeed/fail/trigger (second trigger refused before any write), Process._resume (value sent / '
+          'failure defused and thrown as a copy / termination outcome / immediate continuation on processed events / single '
+          'subscription) equivalent to reference tables; who-may scans of outcome writers and of every growth or removal on a '
+          'callbacks list; exception classes clonable.',
+          'C02', 'who-may scans of _ok/_value/callbacks sites', 'what user callbacks do'),
+ 'C03': c('Environment.run equivalent to the reference (numeric until refused iff at <= now, fresh private sentinel URGENT at '
+          'at-now, stop callback only on that sentinel; event until polled after each step so every waiter is resumed before '
+          'the stop), step and StopSimulation.callback; whole-repo flow scan for nondeterminism sources (wall clock, id/hash, '
+          'uuid reaching anything but __repr__, order-sensitive iteration over sets).',
+          'C03', 'a whole-repo scan of nondeterminism sources classified by sink', 'user programs are themselves deterministic'),
+ 'C04': c('Interruption.__init__ (pre-failed, pre-defused, dead and self targets refused before scheduling, URGENT), '
+          '_interrupt (dead victim ignored, victim alone detached, then resumed), Process.__init__/Initialize (start scheduled '
+          'URGENT before the process can be referenced), Process._resume equivalent to reference tables; priority of every '
+          'schedule() site; Interruption constructed only in Process.interrupt.',
+          'C04', 'who-may scans of schedule() and Interruption() sites', 'ordering among equal keys is C01'),
+ 'C05': c('Condition.__init__, _check, _build_value, _populate_value, _remove_check_callbacks, both predicates, AllOf/AnyOf, '
+          '&/| and the ConditionValue accessors equivalent to reference tables.',
+          'C05', 'nothing else', 'the instant of firing follows from C01/C02'),
+ 'C06': c('Resource._do_put/_do_get, the two scan loops, Put/Get constructors, cancel (with rescan), __exit__, Release, '
+          'PriorityRequest key, SortedQueue.append, PreemptiveResource._do_put equivalent to reference tables; class-level '
+          'queue types, BoundClass bindings and their typed stubs, unexpected overrides; who-may scans of the user list and '
+          'request queues.',
+          'C06', 'class-shape checks and who-may scans', 'each process holds or awaits at most one request per resource'),
+ 'C07': c('Container guards and constructor bounds, Store/PriorityStore/FilterStore _do_put/_do_get, the scan loops, request '
+          'constructors and cancel-with-rescan equivalent to reference tables; who-may scans of _level, items and the queues; '
+          'heapq resolved.',
+          'C07', 'class-shape checks and who-may scans', 'items of a PriorityStore are orderable'),
+ 'C08': c('Per element: put()/run()/__init__ of ports, wires, token buckets, every scheduler, demuxes, switches, generator, '
+          'sink and Packet equivalent to reference tables; element registry exhaustive; every put() path disposes of the packet '
+          'exactly once; every run() iteration forwards what it dequeued, not a copy; store producer/consumer shape agreement; '
+          'identity fields written only in Packet.__init__ (+ sender re-stamp); no assert on a level the loop sets to 0; '
+          'servers spawned once with their own environment; no uncovered override.',
+          'C08', 'path, shape and who-may rules over all element classes', 'kernel stores are FIFO / heap ordered (C07); no re-entrancy through out.put'),
+ 'C09': c('Port.put (thresholds, byte accounting, hop stamp), Port.run (8*size/rate, bytes released on every path, one '
+          'forward), REDPort.put (EWMA gain, three regions, one draw), PortMonitor.run equivalent to reference tables; inc/dec '
+          'pairing of byte_size for Port and every subclass; overriding put keeps the base effects.',
+          'C09', 'inc/dec pairing and sibling rules', 'random.uniform; kernel Store FIFO'),
+ 'C10': c('Wire.put, Wire.run (loss first with one draw, kept packet: one delay draw, wait delay - queued time iff positive, '
+          'one forward), Cable construction and endpoints equivalent to reference tables.',
+          'C10', 'spawn-site and override rules', 'distribution of the draws; kernel Store FIFO'),
+ 'C11': c('TokenBucket.run and TwoRateTokenBucket.run (refills with caps, exact deficit wait, debits, update instants, colour '
+          'decision, peak spacing) equivalent to reference tables; store shape agreement; no assert on a level that may be 0.',
+          'C11', 'shape and sign rules', 'float rounding ignored; conformance inequality follows by the textbook argument'),
+ 'C12': c('Scheduler.send_packet, add_packet_to_queue, MultiQueueScheduler.put (wake-up token iff empty on entry), every '
+          'scheduler\'s put/run, Monitor.run equivalent to reference tables; every send_packet spawned and awaited; server '
+          'yield whitelist with the wake-up wait guarded in the same instant; flow/class key domains never mixed.',
+          'C12', 'key-domain unification, yield whitelist and who-may rules', 'configured flows only'),
+ 'C13': c('SP.__init__ (scan list sorted by priority value, descending) and SP.run (skip iff empty at the time, one awaited '
+          'service, scan left and restarted after every service) equivalent to reference tables, plus the rescan path rule.',
+          'C13', 'a loop-exit path rule', 'positive priorities'),
+ 'C14': c('WFQ.put/run/update_vtime/reset_vtime and VC.put/run equivalent to reference tables (stamp on every path, V '
+          'updated before stamping and after each transmission); heap key = PriorityItem ending in an arrival number '
+          'incremented by the same call, payload never compared.',
+          'C14', 'a key-shape rule and key-domain unification', 'heapq; the weighted-service bound follows from stamp order'),
+ 'C15': c('DRR.__init__/put/run, RR.run, WRR.run equivalent to reference tables (quantum formula, one top-up per visit, '
+          'debit, credit reset on empty, parked head under its class, per-visit allowances).',
+          'C15', 'awaited-send and key-domain rules', 'the fairness bound follows by the DRR lemma'),
+ 'C16': c('TCPSink.packet_arrived/put (ACK is a function of the receive buffer only: end of the first range iff it starts at '
+          '0), sender run/put/timeout_callback/resend_packet and the Timer equivalent to reference tables; splat shape of '
+          'Timer args; network-supplied keys guarded; one ACK-class offset literal. Liveness over loss patterns is NOT decided '
+          '(necessary structure only).',
+          'C16', 'flow (data-dependence), shape and taint rules', 'reliability under every finite loss pattern is outside static reach'),
+ 'C17': c('Send guard, Reno and CUBIC hooks, ACK dispatch (dupack_over iff fast recovery), Jacobson/Karels estimator, '
+          'timeout_callback equivalent to reference tables; cwnd/ssthresh written only by the hooks.',
+          'C17', 'who-may scans of cwnd/ssthresh', 'the CUBIC window function has no reference formula in the property'),
+ 'C18': c('FlowDemux/FIBDemux/RandomDemux.put, switch constructors, Hub, Splitter/NSplitter, Packet.__copy__, FatTree '
+          'construction, flow and FIB generation equivalent to reference tables; every mutable Packet member re-created by '
+          '__copy__; one ACK-class offset literal.',
+          'C18', 'an aliasing rule', 'networkx all_shortest_paths; end-to-end delivery is a run-time statement'),
+ 'C19': c('Timer.__init__ (argument normalisation), run, stop, restart and the sender\'s timeout_callback equivalent to '
+          'reference tables; restart reachable from the timer\'s own process through callback edges, so its interrupt is '
+          'guarded by the active-process test; interrupt guard implies the callee precondition.',
+          'C19', 'a call-graph (callback edge) rule and a guard-implication rule', 'callbacks that raise'),
+ 'C20': c('RealtimeEnvironment.step/sync/__init__ equivalent to reference tables (due time formula, strict check before any '
+          'sleep, sleep re-checked in a loop, exactly one kernel step); the subclass overrides only step/sync and writes no '
+          'kernel state.',
+          'C20', 'an override / writer scan of the subclass', 'OS clock and sleep'),
 }
-NOT_APPLICABLE = {p: 'check under construction in this round (see DESIGN.md section 5); not claimed until its rules exist'
-                  for p in []}
+NOT_APPLICABLE = {}
